@@ -3,13 +3,19 @@
 # Copies /repo to a scratch directory, applies the patch, confirms that the
 # repository's own suite still passes (otherwise it is not a mutant these checks
 # exist for), runs the given quick checks against the copy and removes it.
+# MUTANT_BASE=<commit>: start from that commit of /repo instead of its working tree.
 set -u
 export GOFLAGS=-mod=mod GOPROXY=off GOSUMDB=off GOTOOLCHAIN=local
 patch=$(realpath "$1"); shift
 kit=$(cd "$(dirname "$0")/.." && pwd)
 d=$(mktemp -d /var/tmp/verif-mutant.XXXXXX)
 trap 'rm -rf "$d"' EXIT
-rsync -a --exclude .git /repo/ "$d/repo/"
+if [ -n "${MUTANT_BASE:-}" ]; then
+  # the patch was written for an earlier commit of /repo (a later fix: commit rewrote the same lines)
+  mkdir -p "$d/repo" && git -C /repo archive "$MUTANT_BASE" | tar -x -C "$d/repo"
+else
+  rsync -a --exclude .git /repo/ "$d/repo/"
+fi
 cd "$d/repo"
 if ! patch -p1 -s < "$patch"; then echo "MUTANT $(basename $patch): patch does not apply"; exit 3; fi
 if ! go build ./... 2>"$d/build.log"; then echo "MUTANT $(basename $patch): does not compile"; tail -5 "$d/build.log"; exit 3; fi
